@@ -141,7 +141,8 @@ Section Theorems.
       hrecs (rd_header rd) = hrecs h /\ rd_scheme rd = Some s /\
       Forall2 (fun r' r => cells_of_rec (mcols r') = cells_of_rec (mcols r) /\ merrs r' = [])
               (run_recs (rt_read rt)) rs /\
-      Forall2 (fun r' v => rlist (mcols r') = rlist (mcols v) /\ record_text sem r' = record_text sem v)
+      Forall2 (fun r' v => map (@slot_view C W) (rlist (mcols r')) = map (@slot_view C W) (rlist (mcols v)) /\
+                           record_text sem r' = record_text sem v)
               (run_recs (rt_read rt)) (accepted_records w1) /\
       rt_second rt = Some w2 /\ wr_clean w2 = true /\ wr_text w2 = wr_text w1.
   Proof.
@@ -155,7 +156,7 @@ Section Theorems.
     exists rd, w2. repeat (split; [assumption|]).
     (* every validated record holds exact cells, so the view is the record's own cells *)
     assert (Hview : Forall2 (fun r v => cells_of_rec (mcols r) = cells_of_rec (mcols v) /\
-                                        rlist (mcols v) = rlist (canon_rec (cells_of_rec (mcols v))) /\
+                                        map (@slot_view C W) (rlist (mcols v)) = map (@slot_view C W) (rlist (canon_rec (cells_of_rec (mcols v)))) /\
                                         reread_view s (mcols v) = canon_rec (cells_of_rec (mcols v)))
                             rs (accepted_records w1)).
     { clear - H6 Hty. induction H6 as [|r v rs' vs (Hc & Hs) _ IH]; [constructor|].
